@@ -9,7 +9,6 @@
      the text -0 gives +0                                                                        [vnumber: check_leading_zero]
      field lookup: exact, then strings.ToLower                                              [_asm_OP_struct_field]
      integer map keys are read by vsigned/vunsigned directly from the key text              [_asm_OP_map_key_*]
-     map[uint32]: the range immediate is sign-extended, nothing is rejected                 [_asm_OP_map_key_u32]
      pointer to pointer to T, where pointer-to-T is an unmarshaler: null branch never pinned                       [compilePtr]
    *)
 From Coq Require Import NArith ZArith List Bool.
@@ -23,11 +22,10 @@ Open Scope N_scope.
      the whole document is read to a DOM first: every escape sequence is checked and a number that overflows
        binary64 is an error wherever it stands                                  [native parse_with_padding, Parser.parse]
      ill-formed UTF-8 and raw control characters inside strings: outside the model          [node.go: AsStr]
-     float32: a binary64 value above MaxFloat32 is refused before rounding     [functor.go: f32Decoder]
      slices: one allocation for the final length, reusing the old array only when its capacity suffices;
        []string / []int32.. / []int64.. decoders refuse null elements          [slice.go, rt.MakeSlice, node.go: AsSliceString..]
      map[string]string refuses null values                                     [map.go: mapStringDecoder]
-     map[uint32]T keys are range checked; integer keys are parsed by strconv    [map.go]
+     integer map keys are parsed by strconv                                    [map.go]
      null into a pointer is nil at every level                                 [compiler.go: ptrDecoder]
      null into a TextUnmarshaler value overwrites its first word               [interface.go: unmarshalTextDecoder]
      SONIC_USE_FASTMAP: interface{} maps with duplicate keys are outside the model          [node.go: AsEfaceFast] *)
@@ -49,17 +47,9 @@ Section Sonic.
   (* vnumber: the text -0 returns early with dv = +0.0 *)
   Definition sonic_f64 (t : bytes) : res val :=
     if minus_zero t then Ok (VFlt 0) else fres_val (f64_of_text t).
-  (* binary64 pattern of math.MaxFloat32 *)
-  Definition max_f32_as_f64 : N := 5183643170566569984.
-
   Definition sonic_f32 (t : bytes) : res val :=
     if minus_zero t then Ok (VFlt 0)
-    else if is_opt im then
-      match f64_of_text t with
-      | Some (FBits d) => if max_f32_as_f64 <? d mod 2 ^ 63 then Err else fres_val (f32_via_f64_of_text t)
-      | _ => Err
-      end
-    else fres_val (f32_via_f64_of_text t).
+    else fres_val (f32_via_f64_of_text t).       (* optdec: float32(float64) and an infinity test, since fix 39e707a *)
 
   Definition sonic_number_any (t : bytes) : res val :=
     if o_use_number o then Ok (VNum t)
@@ -185,9 +175,7 @@ Section Sonic.
       | Some z =>
         if negb (is_signed ik) && (match kb with c :: _ => c =? 45 | [] => false end) then Err
         else if is_opt im then (if in_range ik z then Ok (VInt z) else Err)
-        else if accept_map_key ik z then
-          (* Range.v; mapassign_fast32 takes the low 32 bits of a uint32 key *)
-          Ok (VInt (match ik with U32 => (z mod 2 ^ 32)%Z | _ => z end))
+        else if accept_map_key ik z then Ok (VInt z)            (* Range.v: the emitted range check *)
         else Err
       | None => not_json Err
       end
